@@ -153,6 +153,16 @@ def run(tier: str) -> int:
     return chk.finish()
 
 
+def selftest(tier: str) -> int:
+    """In-process mutation probes (monkeypatched library, never /repo): each must be killed."""
+    from . import boot
+    from .core import run_probes
+    boot.setup()
+    allp = djc.standard_probes()
+    probes = [(n, allp[n]) for n in ['only/isolated-does-not-isolate', 'slot-data-alias-lost']]
+    return run_probes(PID, probes, lambda chk: body(chk, mc_nodes=2, n_random=300, n_pairs=60, deep=3))
+
+
 def replay(path: str) -> int:
     from . import boot
     boot.setup()
